@@ -301,13 +301,15 @@ def _build_rc4(docid, enc):
     tu = d.add(Stream({}, tounicode_cmap(bfchars=[(b"A", "\u0416"), (b"B", "\u0417")])))
     f1 = d.add(_font("FontA", N("WinAnsiEncoding"), tounicode=tu))
     f2 = d.add(_font("FontA", enc("WinAnsiEncoding", [67, N("eta")])))
-    f3 = d.add(_cidfont("Ryumin", "90ms-RKSJ-H"))  # CIDSystemInfo strings are encrypted: deciphered exactly once or the map is lost
+    # one Resources object shared by both pages; F3 is a *direct* font dictionary in it, so it is rebuilt for every page
+    # from the cached object: its (encrypted) CIDSystemInfo strings must have been deciphered exactly once
+    res = d.add({"Font": {"F1": f1, "F2": f2, "F3": _cidfont("Ryumin", "90ms-RKSJ-H")}})
     s1 = d.add(Stream({}, _text("F1", 12, 72, 700, b"ABCD") + _text("F3", 12, 72, 600, HexStr(b"\x82\xa0"))))
-    s2 = d.add(Stream({}, _text("F1", 12, 72, 700, b"ABCD") + _text("F2", 12, 72, 650, b"AB") + _text("F3", 12, 72, 600, HexStr(b"\x82\xa2"))))
+    s2 = d.add(Stream({}, _text("F2", 12, 72, 700, b"ABCD") + _text("F1", 12, 72, 650, b"AB") + _text("F3", 12, 72, 600, HexStr(b"\x82\xa2"))))
     d.set(cat, {"Type": N("Catalog"), "Pages": pages})
     d.set(pages, {"Type": N("Pages"), "Kids": [p1, p2], "Count": 2, "MediaBox": [0, 0, 612, 792]})
-    d.set(p1, {"Type": N("Page"), "Parent": pages, "Resources": {"Font": {"F1": f1, "F3": f3}}, "Contents": s1})
-    d.set(p2, {"Type": N("Page"), "Parent": pages, "Resources": {"Font": {"F1": f2, "F2": f1, "F3": f3}}, "Contents": s2})
+    d.set(p1, {"Type": N("Page"), "Parent": pages, "Resources": res, "Contents": s1})
+    d.set(p2, {"Type": N("Page"), "Parent": pages, "Resources": res, "Contents": s2})
     info = d.add({"Title": b"secret title", "Producer": b"verif"})
     e = _encrypt_doc(d, docid)
     return d.write(cat, info=info, trailer_extra={"Encrypt": e, "ID": [HexStr(docid), HexStr(docid)]})
